@@ -3,6 +3,8 @@
 71 baseline tests pass, run every quick check, revert.  Every check must stay quiet (exit 0).
 Results -> benign/results.json"""
 import json, os, subprocess, sys, time
+os.environ["VERIF_EVIDENCE_DIR"] = "/tmp/verif-trial-evidence"
+os.environ["VERIF_REPLAYS_DIR"] = "/tmp/verif-trial-replays"
 V = "/verif"
 ALL = ["C%02d" % i for i in range(1, 18)]
 def sh(cmd, cwd=None):
